@@ -4,6 +4,7 @@ import (
 	"fmt"
 	"go/token"
 	"go/types"
+	"strings"
 
 	"golang.org/x/tools/go/ssa"
 
@@ -161,4 +162,70 @@ func c14ChecksumFold(c *Ctx) {
 		c.Check(inLoop || folds >= 2, "checksum-carry-folded", shortFn(fn), p.InstrPos(first), "carries are folded in a loop (or twice)", fmt.Sprintf("the 32-bit one's-complement sum is folded only once (%d fold, not in a loop): when that fold itself carries the emitted checksum is off by one, so the peer's stack drops the frame", folds))
 	}
 	c.Check(n >= 2, "checksum-carry-folded", "checksum routines found", "-", fmt.Sprint(n), "fewer than two checksum routines (TCP pseudo-header sum, IPv4 header sum) carry a recognisable fold")
+}
+
+// checksumOddOctetHigh: the internet checksum sums 16-bit big-endian words; a message of odd length is padded with a
+// zero octet at the END, so its last octet is the HIGH byte of the final word. In every checksum routine of the raw
+// listener (a function with a carry fold) an octet of the data that is added outside the pair loop must be shifted
+// left by eight. Added as the low byte, every odd-length message with a non-zero last octet fails verification (or is
+// sent with a checksum the peer rejects): a probe of such a length is dropped before it is counted.
+func checksumOddOctetHigh(c *Ctx, rule, consequence string) {
+	p := c.P
+	n := 0
+	for _, fn := range p.FuncsIn(canaryRel) {
+		if fn.Blocks == nil || strings.HasSuffix(p.Fset.Position(fn.Pos()).Filename, "_test.go") {
+			continue
+		}
+		hasFold := false
+		for _, b := range fn.Blocks {
+			for _, in := range b.Instrs {
+				if v, ok := in.(ssa.Value); ok && isCarryFold(v) {
+					hasFold = true
+				}
+			}
+		}
+		if !hasFold {
+			continue
+		}
+		n++
+		bad := ""
+		isOctet := func(v ssa.Value) bool {
+			for i := 0; i < 3; i++ {
+				if cv, ok := v.(*ssa.Convert); ok {
+					v = cv.X
+					continue
+				}
+				break
+			}
+			ld, ok := v.(*ssa.UnOp)
+			if !ok || ld.Op != token.MUL {
+				return false
+			}
+			ia, ok := ld.X.(*ssa.IndexAddr)
+			if !ok {
+				return false
+			}
+			if _, isConst := ia.Index.(*ssa.Const); isConst {
+				return false // a fixed position (pseudo-header address octets), not the tail of a message
+			}
+			sl, ok := ia.X.Type().Underlying().(*types.Slice)
+			return ok && types.Identical(sl.Elem(), types.Typ[types.Byte])
+		}
+		for _, b := range fn.Blocks {
+			if InLoop(b) {
+				continue
+			}
+			for _, in := range b.Instrs {
+				bo, ok := in.(*ssa.BinOp)
+				if !ok || bo.Op != token.ADD {
+					continue
+				}
+				if isOctet(bo.X) || isOctet(bo.Y) {
+					bad = p.InstrPos(bo) + " `" + RenderN(bo, 3) + "`"
+				}
+			}
+		}
+		c.Check(bad == "", rule, shortFn(fn)+" trailing octet", p.Pos(fn.Pos()), "no unshifted data octet is added outside the pair loop", "the checksum routine adds a single data octet as the LOW byte of a word outside its pair loop ("+bad+"): the pad octet of an odd-length message belongs after it, so the last octet is the high byte. "+consequence)
+	}
+	c.Check(n >= 2, rule, "checksum routines found", "-", fmt.Sprint(n), "fewer than two checksum routines with a recognisable carry fold")
 }
